@@ -114,6 +114,11 @@ def match(p, n, b):
         if f in ('ctx', 'type_comment', 'kind', 'lineno'):
             continue
         pv, nv = getattr(p, f, None), getattr(n, f, None)
+        if isinstance(pv, list) and len(pv) == 1 and isinstance(
+                pv[0], ast.Expr) and is_any(pv[0].value):
+            continue                      # `__` as a whole block
+        if isinstance(p, ast.If) and f == 'orelse' and not pv:
+            continue                      # template without else: any else
         if isinstance(pv, ast.AST) or isinstance(pv, list):
             if isinstance(pv, list):
                 if not isinstance(nv, list) or len(pv) != len(nv):
